@@ -1389,7 +1389,7 @@ func (s *server) gcloop() {
 		// Wait for a random time interval.
 		d := time.Duration(minWait+rand.Intn(maxWait-minWait)) * time.Millisecond
 		select {
-		case <-time.After(d):
+		case <-gcloopTimer(d):
 		case <-s.done:
 			return // server has been closed
 		}
